@@ -254,6 +254,15 @@ def precedence(ses, rep):
                     if r == "sat":
                         flagged.append((oid + "/search-is-consulted", "a configuration is chosen without searching for stylua.toml", "search", {}))
                     continue
+                # the search starts in a directory computed from the working directory (relative targets are resolved against it)
+                cd = ex.lazy_tab.get((me.oid, ("field", T.field_index("ConfigResolver", "current_directory"))))
+                from .c02 import Prov
+                start_dir = searches[-1][1][1]
+                starts_at_cwd = cd is not None and isinstance(cd, Lazy) and cd.oid in Prov(ex, o).of(start_dir)
+                r, m = ses.obligation(oid + "/search-starts-from-the-working-directory", pc + [z3.Not(has_forced)], z3.BoolVal(not starts_at_cwd),
+                                      "find_config_file is given current_directory.join(path).parent() (or the cwd itself for plain stdin)")
+                if r == "sat":
+                    flagged.append((oid + "/search-starts-from-the-working-directory", "the configuration search does not start from a path resolved against the working directory", "search", {}))
                 sres = searches[-1][2]
                 okv = ex.lazy_child(o.state, sres, ("vfield", "Ok", 0), "Option<Config>", ".Ok.0")
                 found = ex.discr(o.state, okv) == 1
@@ -324,6 +333,16 @@ def battery():
         ("sibling-not-used", {"a/stylua.toml": W3, "b/f.lua": SRC}, ["b/f.lua"], {"b/f.lua": OUT("\t")}),
         ("stdin-cwd", {"stylua.toml": W2}, ["-"], None),
     ]
+    # stdin with a relative --stdin-filepath: the search starts at cwd/<dir of the path> and, with --search-parent-directories, goes above the cwd
+    WQ = "quote_style = 'AutoPreferSingle'\n"
+    for spath in ("sub/foo.lua", "foo.lua", "./sub/new.lua"):
+        r = clireplay.run_cli(binp, {"proj/.stylua.toml": WQ, "proj/pkg/sub/foo.lua": "x = 1\n"}, ["--search-parent-directories", "--stdin-filepath", spath, "-"],
+                              stdin='local x = "hello"\n', cwd_rel="proj/pkg", env={"XDG_CONFIG_HOME": "/nonexistent-xdg"})
+        if r["out"] != "local x = 'hello'\n":
+            return "stdin-filepath-above-cwd", f"--search-parent-directories --stdin-filepath {spath} (configuration one level above the cwd): stdin formatted as {r['out']!r}", clireplay.describe(r)
+    r = clireplay.run_cli(binp, {"proj/pkg/sub/.stylua.toml": WQ}, ["--stdin-filepath", "sub/foo.lua", "-"], stdin='local x = "hello"\n', cwd_rel="proj/pkg")
+    if r["out"] != "local x = 'hello'\n":
+        return "stdin-filepath-subdir", f"--stdin-filepath sub/foo.lua with sub/.stylua.toml: stdin formatted as {r['out']!r}", clireplay.describe(r)
     for name, files, argv, want in cases:
         if want is None:
             r = clireplay.run_cli(binp, files, argv, stdin=SRC)
